@@ -98,6 +98,8 @@ type ftCaller struct {
 	kills []string // task ids of KILL calls
 	other int
 	reconciles []int // number of tasks listed by each RECONCILE call (0 = implicit reconciliation)
+	accepts    []ftAccept
+	declined   []string // offer ids of DECLINE calls
 	fail  func(taskId string) bool
 	onKill func(taskId string) // what Mesos does after accepting a KILL (e.g. report TASK_KILLED)
 }
@@ -113,6 +115,25 @@ func (c *ftCaller) Call(ctx context.Context, call *scheduler.Call) (mesos.Respon
 		}
 		if c.onKill != nil {
 			c.onKill(id)
+		}
+		return nil, nil
+	}
+	if call.GetType() == scheduler.Call_ACCEPT {
+		a := ftAccept{}
+		for _, o := range call.GetAccept().GetOfferIDs() {
+			a.offers = append(a.offers, o.Value)
+		}
+		for _, op := range call.GetAccept().GetOperations() {
+			if l := op.GetLaunch(); l != nil {
+				a.tasks = append(a.tasks, l.TaskInfos...)
+			}
+		}
+		c.accepts = append(c.accepts, a)
+		return nil, nil
+	}
+	if call.GetType() == scheduler.Call_DECLINE {
+		for _, o := range call.GetDecline().GetOfferIDs() {
+			c.declined = append(c.declined, o.Value)
 		}
 		return nil, nil
 	}
@@ -134,6 +155,12 @@ func (c *ftCaller) killed(id string) int {
 		}
 	}
 	return n
+}
+
+// ftAccept is one ACCEPT call: the offers it uses and the tasks it launches on them.
+type ftAccept struct {
+	offers []string
+	tasks  []mesos.TaskInfo
 }
 
 type ftWorld struct {
